@@ -14,7 +14,7 @@ ID = "C04"
 RULE = (
     "Hypothesis draws (mechanism, name/rename route, parameters, up to 64 points (v, states)); v in [-150,100] from "
     "floats plus the singularity-directed strategy. Per point and gate: rate functions vs the published formulas (R2); "
-    "per point: compute_current vs the published current equation; per case: default parameter/state dictionaries vs "
+    "per point: compute_current vs the published current equation and one update_states step (dt 0.025 and 1) vs the exact exponential update with the published rates; per case: default parameter/state dictionaries vs "
     "the documented defaults, renamed vs original mechanism (identical numbers under renamed keys, only documented "
     "global keys shared); a tenth of the cases simulate original and renamed channel in a compartment. "
     "Distinct non-trivial key = (mechanism, function, 5 mV voltage bucket, default-or-drawn parameters); every "
@@ -241,6 +241,29 @@ def judge(spec, tier="quick"):
                 i = int(np.argmax(bad))
                 out.violate(f"current:{mech}", f"{mech}.compute_current(v={v[i]!r}, states={({k: Sd[k][i] for k in Sd})}, "
                             f"params={({k: P[k][i] for k in P})}) = {cur[i]!r}; published {ref[i]!r}")
+    if not is_syn and snames and not out.violations:
+        # the kinetics actually integrated: one update_states step against the published rates (exact exponential)
+        pjx = dict(pj)
+        for k in ("radius", "length", "axial_resistivity", "capacitance"):
+            pjx[k] = jnp.ones(n)
+        for dt in (0.025, 1.0):
+            res, err = core.call(obj.update_states, sj, dt, jnp.asarray(v), pjx)
+            if err:
+                out.violate("raises", f"{mech}.update_states raised {err.short()}", etype=err.etype, frame=err.frame)
+                break
+            for g, gfun in table["gates"].items():
+                kind, ar, br = gfun(v, P, saturate_at=20.0) if mech == "CaT" else gfun(v, P)  # CaT: saturated form of open finding N6
+                xr, tr = R2.steady_tau(kind, ar, br)
+                want = R2.exp_update(Sd[g], dt, xr, tr)
+                got = np.asarray(res.get(f"{pre}_{g}", np.full(n, np.nan)), float)
+                out.evals += n
+                nt(f"update:{g}")
+                bad = ~(np.abs(got - want) <= 1e-5)
+                if bad.any():
+                    i = int(np.argmax(bad))
+                    out.violate(f"update:{mech}.{g}", f"{mech}.update_states(v={v[i]!r}, {g}={Sd[g][i]!r}, dt={dt}, params={({k: P[k][i] for k in P})}) = {got[i]!r}; "
+                                f"exact update with the published rates {want[i]!r}")
+                    break
     if is_syn and snames:
         # synaptic state update against Abbott & Marder (the rate is not public: compare one update)
         dt = 0.025
